@@ -77,18 +77,20 @@ def what_of(v):
 def run(ctx, cases_override=None):
     th = ctx.thorough
     # ---- MC: Impl (isDisabledForRule / isEnabled / locked / file comments) vs DocSuppresses
-    if th:
-        mcs = [ctx.tlc("DispatchC07", "c07_mc.cfg", files={"c07_mc.cfg": cfg([1, 2], [1, 2, 3, 4], [2], ["rule", "file"], False, False, False, "Inv_C07", True,
-                                                                             priors=("none", "expired"))},
-                       timeout=5400, allow_violation=True, workers=W)]
-    else:
-        mcs = [ctx.tlc("DispatchC07", "c07_mc.cfg", files={"c07_mc.cfg": cfg([1], [2, 4], [2], ["rule", "file"], False, False, False, "Inv_C07", True,
-                                                                             priors=("none", "expired"))},
-                       timeout=3000, allow_violation=True, workers=W)]
+    mcs = []
+    if cases_override is None:   # a replay only re-executes the stored case
+        if th:
+            mcs = [ctx.tlc("DispatchC07", "c07_mc.cfg", files={"c07_mc.cfg": cfg([1, 2], [1, 2, 3, 4], [2], ["rule", "file"], False, False, False, "Inv_C07", True,
+                                                                                 priors=("none", "expired"))},
+                           timeout=5400, allow_violation=True, workers=W, dfs=True)]
+        else:
+            mcs = [ctx.tlc("DispatchC07", "c07_mc.cfg", files={"c07_mc.cfg": cfg([1], [2, 4], [2], ["rule", "file"], False, False, False, "Inv_C07", True,
+                                                                                 priors=("none", "expired"))},
+                           timeout=3000, allow_violation=True, workers=W, dfs=True)]
     leads = [m["invariant_violated"] for m in mcs if m["invariant_violated"]]
     # ---- probe: reports of the unmodified file per scenario -> C07Base (which (rule, check) pairs have problems)
     sc = ctx.tlc("DispatchC07", "c07_scen.cfg", files={"c07_scen.cfg": cfg([1, 2], [1, 2, 3, 4], [1], ["rule"], False, False, True, "EmitScen")},
-                 timeout=3000, workers=1)
+                 timeout=3000, workers=1, dfs=True)
     scens = [v[0] for v in prints(sc, "SCEN")]
     if len(scens) != 8:
         raise MachineryError("expected 8 scenarios, got %d" % len(scens))
@@ -106,8 +108,9 @@ def run(ctx, cases_override=None):
         cases = []
 
         def gen(name, text, cap=0, **kw):
+            # dfs=True = in-memory state queue: TLC's disk queue cannot serialise the shared instance sets of this spec
             r = ctx.tlc("DispatchC07", name, files={name: text, "C07Base.tla": base_text}, timeout=3000,
-                        workers=(4 if "simulate" in kw else W), **kw)
+                        workers=(4 if "simulate" in kw else W), dfs=("simulate" not in kw), **kw)
             cs = [v[0] for v in prints(r, "CASE")]
             if not cs:
                 raise MachineryError("GEN %s produced no cases" % name)
@@ -119,8 +122,8 @@ def run(ctx, cases_override=None):
             return cs
         BOTH, PR = ("lf", "crlf"), ("none", "expired")
         if th:
-            # every (rule, check) pair with a problem x every comment form x spelling x one placement of each class
-            cases += gen("c07_gen0.cfg", cfg([1], [2], ALL_RULES, ["rule", "file"], True, False, False, "EmitCase"))
+            # every (rule, check) pair with a problem x every comment form x spelling x every placement (1 server, locked layout)
+            cases += gen("c07_gen0.cfg", cfg([1], [2], ALL_RULES, ["rule", "file"], True, True, False, "EmitCase"))
             cases += gen("c07_gen1.cfg", cfg([2], [1, 3, 4], ALL_RULES, ["rule", "file"], True, False, True, "EmitCase", eols=BOTH))
             cases += gen("c07_gen2.cfg", cfg([1, 2], [1, 2, 3, 4], ALL_RULES, ["rule", "file"], False, True, False, "EmitCase", eols=BOTH, priors=PR),
                          cap=6000, simulate=400, depth=7)
@@ -144,18 +147,28 @@ def run(ctx, cases_override=None):
     tpath = ctx.path("c07_trace.ndjson")
     ctx.vh("exec-c07", cpath, tpath, pint, 1 if cases_override is not None else 25, timeout=5400)
     trace = read_ndjson(tpath)
-    # ---- JUDGE (Run records are independent given their Base record: judged in parallel)
-    j = ctx.tlc("DispatchC07Trace", "DispatchC07Trace.cfg", files={"c07_trace.ndjson": tpath, "C07Base.tla": base_text},
-                timeout=5400, heap="8g", workers=W)
-    if j["distinct"] != 2 * len(trace):
-        raise MachineryError("JUDGE accepted %s states for %d trace records (expected %d)" % (j["distinct"], len(trace), 2 * len(trace)))
-    if prints(j, "BINARY"):
+    # ---- JUDGE (Run records are independent given their Base record: judged in parallel, in chunks that bound TLC's heap;
+    #      the Base records are part of every chunk)
+    base_recs = [r for r in trace if r["ev"] == "Base"]
+    run_recs = [r for r in trace if r["ev"] == "Run"]
+    CH = 2500
+    jprints = {"VIOL": [], "DRIFT": [], "BINARY": []}
+    for n, lo in enumerate(range(0, max(len(run_recs), 1), CH)):
+        part = base_recs + run_recs[lo:lo + CH]
+        ppath = write_ndjson(ctx.path("c07_trace_part.ndjson"), part)
+        j = ctx.tlc("DispatchC07Trace", "DispatchC07Trace.cfg", files={"c07_trace.ndjson": ppath, "C07Base.tla": base_text},
+                    timeout=5400, heap="8g", workers=W, dfs=True, tag="judge%d" % n)
+        if j["distinct"] != 2 * len(part):
+            raise MachineryError("JUDGE accepted %s states for %d trace records (expected %d)" % (j["distinct"], len(part), 2 * len(part)))
+        for k in jprints:
+            jprints[k] += prints(j, k)
+    if jprints["BINARY"]:
         raise MachineryError("the in-process pipeline and the pint binary disagree on %d sampled case(s), e.g. %s" % (
-            len(prints(j, "BINARY")), prints(j, "BINARY")[0]))
+            len(jprints["BINARY"]), jprints["BINARY"][0]))
     viols = []
-    for cid, v in prints(j, "VIOL"):
+    for cid, v in jprints["VIOL"]:
         viols.append({"sig": sig_of(v), "what": what_of(v), "case": cases[cid - 1], "detail": v})
-    drift = ["case %s: %s" % (cid, json.dumps(d)[:400]) for cid, d in prints(j, "DRIFT")]
+    drift = ["case %s: %s" % (cid, json.dumps(d)[:400]) for cid, d in jprints["DRIFT"]]
     if leads and not viols and cases_override is None:
         raise MachineryError("model-level counterexample (%s) not reproduced on the real code: spec bug" % leads)
     runs = [r for r in trace if r["ev"] == "Run"]
